@@ -125,6 +125,9 @@ def call_program(draw, config=None, ncalls=(2, 5), nest=True, valid=False, **cfg
         lines.append("r%d = %s.%s(%s)" % (k, recv, m, ", ".join(exprs)))
         lines.append("dbtp r%d" % k)
         probes.append({"row": row, "R": R, "m": m, "pos": pos, "kws": kws, "static": static, "var": "r%d" % k, "dbtp_row": row + 1})
+        if not static and any(d_.get("destructive") for d_ in ds):
+            # a destructive method rebinds its receiver: show what the receiver is afterwards
+            lines.append("dbtp %s" % recv)
     wrap = None
     if nest and draw(st.integers(0, 3)) == 0:
         wrap = draw(st.sampled_from(["if true", "unless false", "2.times do |wi|"]))
